@@ -1,4 +1,13 @@
-"""Mutation catalogue for C09 (collection queries).  name -> ([ids], file, old text (unique), new text)."""
+"""Mutation catalogue for C09 (collection queries).  name -> ([ids], file, old text (unique), new text).
+
+Removed as equivalent (never changes an answer, so no monitor can or should see them):
+  * `my_bins and not any(...)` -> `not all(...)`  (DESIGN C09-M): a member contained in the range has every child contained, so
+    every child's bin is in the query's bin set; only members that the exact predicate rejects anyway are skipped.
+  * `bins(start + 1, end, ...)` for the query: bins() keeps the bin of position `stop` itself (inclusive stop, K6), and a contained
+    member that starts on the last base of a finest bin is stored under the common ancestor bin, which stays in the set.
+  * `if start == self.start and end == self.end` -> `if start == self.start` in _subset_parent: the result then re-uses the whole
+    source parent - more sequence than the bounds, every base still right (latitude (j) of the check).
+"""
 _C = "inscripta/biocantor/gene/collections.py"
 MUTATIONS = {
     # ---- _query_by_position: predicate, coding filter, bin shortcut ---------------------------------------------------
@@ -6,7 +15,7 @@ MUTATIONS = {
                                    "        if not completely_within:\n            coordinate_fn = query_loc.contains"),
     "c09-bin-shortcut-inverted": (["C09"], _C, "elif my_bins and not any(grandchild.bin in my_bins for grandchild in child):",
                                   "elif my_bins and any(grandchild.bin in my_bins for grandchild in child):"),
-    "c09-bin-query-start-plus-1": (["C09"], _C, 'my_bins = bins(start, end, fmt="bed", one=False)', 'my_bins = bins(start + 1, end, fmt="bed", one=False)'),
+    "c09-bin-query-bins-of-start-only": (["C09"], _C, 'my_bins = bins(start, end, fmt="bed", one=False)', 'my_bins = bins(start, start + 1, fmt="bed", one=False)'),
     "c09-bins-range-no-plus1": (["C09"], "inscripta/biocantor/util/bins.py", "range(offset + start, offset + stop + 1)", "range(offset + start, offset + stop)"),
     "c09-coding-filter-inverted": (["C09"], _C, "if coding_only and not child.is_coding:", "if coding_only and child.is_coding:"),
     # ---- query_by_position: defaults, refusals, expansion ----------------------------------------------------------------
